@@ -276,14 +276,26 @@ def _own_continue(loop_body):
 def _for_as_while(n):
     """`for (; cond; inc) body` is `while (cond) { body; inc; }` when no `continue` skips to the increment."""
     sl = n.get('slots') or {}
-    if sl.get('init') is not None or sl.get('cond') is None or sl.get('body') is None:
+    if sl.get('cond') is None or sl.get('body') is None:
         return None
+    init = sl.get('init')
+    if init is not None and init.get('k') == 'DeclStmt':
+        inc0 = sl.get('inc')
+        stepping = isinstance(inc0, dict) and ((inc0.get('k') == 'BinaryOperator' and inc0.get('op') == '=') or (inc0.get('k') == 'CXXOperatorCallExpr' and inc0.get('op') == '='))
+        if not stepping:
+            return None     # a counting loop with its own variable stays a `for` (index loops that are not range-fors are matched as such)
     body, inc = sl['body'], sl.get('inc')
     if inc is not None and _own_continue(body):
         return None
     sts = list(body.get('c') or ()) if body.get('k') == 'CompoundStmt' else [body]
     nb = {'k': 'CompoundStmt', 'c': sts + ([inc] if inc is not None else []), 'loc': body.get('loc'), 'end': body.get('end'), 'id': body.get('id') if body.get('k') == 'CompoundStmt' else None}
-    return {'k': 'WhileStmt', 'loc': n.get('loc'), 'end': n.get('end'), 'id': n.get('id'), 'normalised_from': 'for without initialisation', 'slots': {'cond': sl['cond'], 'body': nb}}
+    w = {'k': 'WhileStmt', 'loc': n.get('loc'), 'end': n.get('end'), 'id': n.get('id'), 'normalised_from': 'for without initialisation', 'slots': {'cond': sl['cond'], 'body': nb}}
+    if init is None:
+        return w
+    # for (E; cond; inc) body  is  { E; while (cond) { body; inc; } }
+    w['normalised_from'] = 'for with an expression as initialisation'
+    w['id'] = None
+    return {'k': 'CompoundStmt', 'c': [init, w], 'loc': n.get('loc'), 'end': n.get('end'), 'id': n.get('id'), 'normalised_from': 'for with an expression as initialisation'}
 
 
 def normalise(n):
@@ -1236,9 +1248,11 @@ def opaque_tokens(body):
                     has = True
             nm = (x.get('callee_name') or '')
             if k == 'CallExpr' and nm.startswith('std::') and nm.rsplit('::', 1)[-1] in ALGS and has:
-                out.append('alg:' + nm.rsplit('::', 1)[-1])
-        elif k == 'DoStmt':
-            out.append('do')
+                # only an algorithm whose lambda DOES something can hide what a rule looks for; a pure predicate (any_of / find_if over a test) is a value
+                # like any other and stays visible as a condition or an initialiser
+                lams = [y for y in _walk(x) if y.get('k') == 'LambdaExpr']
+                if any(_impure(l['c'][0]) for l in lams if l.get('c')) or nm.rsplit('::', 1)[-1] in ('for_each', 'transform', 'accumulate', 'generate', 'for_each_n', 'copy_if', 'remove_if', 'replace_if', 'partition'):
+                    out.append('alg-effect')
         elif k == 'GotoStmt':
             out.append('goto')
     for x in _walk(body):
